@@ -70,7 +70,11 @@ func HITS(g graph.Directed, tol float64) map[int64]HubAuthority {
 		norm = math.Sqrt(norm)
 
 		for i := range auth {
-			auth[i] /= norm
+			if norm != 0 {
+				// norm is zero only for a graph without edges;
+				// all scores are then zero.
+				auth[i] /= norm
+			}
 			deltaAuth[i] -= auth[i]
 		}
 
@@ -87,7 +91,9 @@ func HITS(g graph.Directed, tol float64) map[int64]HubAuthority {
 		norm = math.Sqrt(norm)
 
 		for i := range hub {
-			hub[i] /= norm
+			if norm != 0 {
+				hub[i] /= norm
+			}
 			deltaHub[i] -= hub[i]
 		}
 
